@@ -137,7 +137,8 @@ MClose == /\ provDone /\ ~mgrDone /\ mgrDone' = TRUE
           /\ closeReq' = [c \in Conn |-> closeReq[c] \/ c \in table]
           /\ UNCHANGED <<permits, ppc, held, running, table, sess, connOpen, nextId, provDone, nfail, nkill>>
 
-Internal == PAcquire \/ PAdd \/ PStopped \/ MClose \/ \E c \in Conn : SDie(c) \/ SUnreg(c) \/ SRelease(c)
+InternalButAdd == PAcquire \/ PStopped \/ MClose \/ \E c \in Conn : SDie(c) \/ SUnreg(c) \/ SRelease(c)
+Internal == InternalButAdd \/ PAdd
 Env == DialOk \/ DialFail \/ SessOk \/ SessErr \/ PingOk \/ (\E k \in Kinds : PingFail(k)) \/ Cancel
        \/ \E c \in Conn : PeerClose(c) \/ LocalClose(c)
 Next == Internal \/ Env
